@@ -537,20 +537,31 @@ class LocalScheduleInterpreter(OneShotTask):
                 if _debug: LocalScheduleInterpreter._debug("    - priority: %r", priority)
 
                 # look for all of the possible times
+                event_value = None
+                event_transition = None
                 for time_value in special_event.listOfTimeValues:
                     tval = time_value.time
                     if tval <= etime:
                         if isinstance(time_value.value, Null):
                             if _debug: LocalScheduleInterpreter._debug("    - relinquish exception @ %r", tval)
-                            event_priority[priority] = None
-                            next_transition_time[priority] = None
+                            event_value = None
                         else:
                             if _debug: LocalScheduleInterpreter._debug("    - consider exception @ %r", tval)
-                            event_priority[priority] = time_value.value
-                            next_transition_time[priority] = next_day
+                            event_value = time_value.value
                     else:
-                        next_transition_time[priority] = tval
+                        event_transition = tval
                         break
+
+                # of the events with the same priority the first one that has
+                # a value in effect counts, the next transition of any of them
+                # can change that
+                if (event_priority[priority] is None) and (event_value is not None):
+                    event_priority[priority] = event_value
+                if event_transition is not None:
+                    if next_transition_time[priority] is None:
+                        next_transition_time[priority] = event_transition
+                    else:
+                        next_transition_time[priority] = min(next_transition_time[priority], event_transition)
 
         # assume the next transition will be at the start of the next day
         earliest_transition = next_day
